@@ -219,7 +219,7 @@ static void run_bst(case_t *c, unsigned long long k, int dtor) {
 }
 
 /* map: keys are the strings "k<id>" kept alive by the driver */
-#define MAXKEYS 8192
+#define MAXKEYS 65536
 static char *keystr[MAXKEYS];
 static const char *key_of(unsigned long long id) {
     if (id >= MAXKEYS) id = MAXKEYS - 1;
